@@ -137,6 +137,12 @@ class Builder:
         elif k == "cat":
             c = g.call_function(torch.cat, ([a, self.pick()],), {"dim": 0})
             self.floats.append(g.call_function(operator.getitem, (c, slice(None, 4))))
+        elif k == "cat_kwlist":     # the list of tensors itself passed by KEYWORD: torch.cat(tensors=[a, b], dim=0)
+            c = g.call_function(torch.cat, (), {"tensors": [a, self.pick()], "dim": 0})
+            self.floats.append(g.call_function(operator.getitem, (c, slice(None, 4))))
+        elif k == "stack_kwlist":
+            st = g.call_function(torch.stack, (), {"tensors": (a, g.call_function(torch.neg, (self.pick(),)))})
+            self.floats.append(g.call_function(torch.sum, (st,), {"dim": 0}))
         elif k == "cat1":    # a list argument with a single tensor
             self.floats.append(g.call_function(torch.cat, ([a],), {"dim": 0}))
         elif k == "stack_sum":
@@ -184,7 +190,7 @@ class Builder:
 
 
 TRACK_VOCAB = ["neg", "neg_kw", "reshape", "reshape_size", "flip", "mul2", "near1", "near1", "near1", "relu", "abs", "add", "sub", "mul_kw", "cat", "cat1",
-               "stack_sum", "rotate_half", "linear", "index", "index_kw", "where", "where_kw", "detach_branch"]
+               "stack_sum", "rotate_half", "linear", "index", "index_kw", "where", "where_kw", "detach_branch", "cat_kwlist", "stack_kwlist"]
 
 
 def random_tracked_module(rng: random.Random, n_ops: int, vocab: Optional[List[str]] = None) -> Tuple[fx.GraphModule, int, int]:
